@@ -24,6 +24,16 @@ def blist (b : BeL) (t : FileType) : List (Name × Nat) :=
 def idOf (s : String) : Option Name :=
   if s.length = 64 ∧ isCacheName 64 s.toList then some s.toList else none
 
+/-- `-` or `id:size+id:size+…` -/
+def listOf (s : String) : Option (List (Name × Nat)) :=
+  if s = "-" then some [] else
+  (s.splitOn "+").mapM (fun e =>
+    match e.splitOn ":" with
+    | [id, n] => match idOf id, n.toNat? with
+      | some id, some n => if n ≥ 4294967296 then none else some (id, n)
+      | _, _ => none
+    | _ => none)
+
 def tIdx : FileType → Nat
   | .config => 0 | .index => 1 | .key => 2 | .snapshot => 3 | .pack => 4
 
@@ -113,6 +123,12 @@ def stepOne (d : D) (s : String) : Option (String × D) :=
       else if h = "u" then some (fmtListing list, d)
       else none
     | none => none
+  | ["q", t, list] =>
+    -- `Cache::remove_not_in_list(t, list)` called directly: the pack clean-up of `check` (list = tree packs of the index)
+    match tpeOf t, listOf list with
+    | some t, some l =>
+      some ("ok", d.withCache (removeNotInList L d.dirs d.st.cache t l))
+    | _, _ => none
   | ["s", p, data] =>
     if !goodPath p then none else
     (dataOf data).map (fun x =>
